@@ -145,6 +145,11 @@ func instrWrites(w *World, e *Enc, in ssa.Instruction) []string {
 				}
 			}
 			for _, m := range ci.spec.Modifies {
+				if m.FieldsOf != "" {
+					for _, h := range w.fieldHeapsOf(m.FieldsOf) {
+						set[h] = true
+					}
+				}
 				for _, g := range m.Ghosts {
 					if h, err := w.heapGhost(g); err == nil {
 						set[h] = true
@@ -157,4 +162,21 @@ func instrWrites(w *World, e *Enc, in ssa.Instruction) []string {
 		}
 	}
 	return sortedHeapNames(set)
+}
+
+// fieldHeapsOf: all field heaps of a named struct type given as pkg.T
+func (w *World) fieldHeapsOf(tn string) []string {
+	t, err := w.parseGoType(tn)
+	if err != nil {
+		return nil
+	}
+	st, ok := t.Underlying().(*types.Struct)
+	if !ok {
+		return nil
+	}
+	var out []string
+	for i := 0; i < st.NumFields(); i++ {
+		out = append(out, w.heapField(t, i))
+	}
+	return out
 }
